@@ -85,3 +85,82 @@ theorem readN_fifo_lora (c : Chip) (hl : c.isLora = true) (wf : c.WF) (n : Nat) 
       · simp only [wr_wr_same, u8_add_assoc']
 
 end Sx
+
+namespace Sx
+open Mem Chip
+
+/-- the LoRa data buffer after a burst write of `d` starting at pointer `p` -/
+def bufAfter (buf : Mem) (p : UInt8) : List UInt8 → Mem
+  | [] => buf
+  | v :: vs => bufAfter (buf.wr p.toNat v) (p + 1) vs
+
+theorem bufAfter_length (buf : Mem) (p : UInt8) (d : List UInt8) : (bufAfter buf p d).length = buf.length := by
+  induction d generalizing buf p with
+  | nil => rfl
+  | cons v vs ih => simp [bufAfter, ih]
+
+theorem write_fifo_lora (c : Chip) (v : UInt8) (hl : c.isLora = true) :
+    c.write 0 v = { c with buf := c.buf.wr (c.lora.rd 0x0d).toNat v, lora := c.lora.wr 0x0d (c.lora.rd 0x0d + 1) } := by
+  simp [Chip.write, hl]
+
+theorem writeN_fifo_lora (c : Chip) (hl : c.isLora = true) (wf : c.WF) (d : List UInt8) :
+    c.writeN 0 d = if d = [] then c else
+      { c with buf := bufAfter c.buf (c.lora.rd 0x0d) d,
+               lora := c.lora.wr 0x0d (c.lora.rd 0x0d + UInt8.ofNat d.length) } := by
+  induction d generalizing c with
+  | nil => simp [writeN]
+  | cons v vs ih =>
+    have hlen : 0x0d < c.lora.length := by rw [wf.hl]; decide
+    have wf1 : ({ c with buf := c.buf.wr (c.lora.rd 0x0d).toNat v, lora := c.lora.wr 0x0d (c.lora.rd 0x0d + 1) } : Chip).WF :=
+      ⟨wf.hs, by simp [wf.hl], wf.hf, by simp [wf.hb]⟩
+    simp only [writeN, ↓reduceIte, write_fifo_lora c v hl, List.cons_ne_nil]
+    rw [ih _ (by exact hl) wf1]
+    simp only [rd_wr_same _ _ _ hlen, wr_wr_same, bufAfter, List.length_cons]
+    split
+    · rename_i h0; subst h0
+      simp [bufAfter]
+    · simp only [u8_add_assoc']
+
+/-- positions a burst of `n` bytes from `p` does not reach keep their content -/
+theorem bufAfter_other (buf : Mem) (p : UInt8) (d : List UInt8) (x : Nat)
+    (hx : ∀ j, j < d.length → (p.toNat + j) % 256 ≠ x) : (bufAfter buf p d).rd x = buf.rd x := by
+  induction d generalizing buf p with
+  | nil => rfl
+  | cons v vs ih =>
+    simp only [bufAfter]
+    rw [ih]
+    · have h0 := hx 0 (by simp)
+      have hp := p.toNat_lt
+      simp only [Nat.add_zero, Nat.mod_eq_of_lt hp] at h0
+      exact rd_wr_ne _ _ _ _ h0
+    · intro j hj
+      have := hx (j + 1) (by simp; omega)
+      rw [u8_add_one_toNat]
+      intro e; apply this; rw [← e]; omega
+
+/-- a burst of at most 256 bytes leaves byte `i` of the data at buffer address `(p + i) mod 256` -/
+theorem bufAfter_data (buf : Mem) (hb : buf.length = 256) (p : UInt8) (d : List UInt8) (hd : d.length ≤ 256) (i : Nat)
+    (hi : i < d.length) : (bufAfter buf p d).rd ((p.toNat + i) % 256) = d.getD i 0 := by
+  induction d generalizing buf p i with
+  | nil => simp at hi
+  | cons v vs ih =>
+    simp only [bufAfter]
+    have hp := p.toNat_lt
+    cases i with
+    | zero =>
+      simp only [Nat.add_zero, Nat.mod_eq_of_lt hp, List.getD_cons_zero]
+      rw [bufAfter_other]
+      · exact rd_wr_same _ _ _ (by rw [hb]; exact hp)
+      · intro j hj
+        rw [u8_add_one_toNat]
+        simp only [List.length_cons] at hd
+        omega
+    | succ k =>
+      simp only [List.getD_cons_succ]
+      have := ih (buf.wr p.toNat v) (by simp [hb]) (p + 1) (by simp at hd; omega) k (by simp at hi; omega)
+      rw [u8_add_one_toNat] at this
+      rw [← this]
+      congr 1
+      omega
+
+end Sx
